@@ -100,8 +100,10 @@ def _case(draw, tier):
         "center": [draw(sampled_from([180.0, -180.0, 0.0]) | st.floats(-180, 180)), draw(sampled_from([90.0, -90.0, 0.0]) | st.floats(-90, 90))],
         "r": draw(st.floats(5.0, 100.0)),
         "k": draw(st.integers(1, 6)),
-        "lat": draw(st.floats(-80.0, 80.0)),
+        "lat": draw(st.floats(-80.0, 80.0) | sampled_from([89.995, -89.995, 89.9, -89.9, 0.0])),
         "lat_from_node": draw(sampled_from([None, None, 0, 1, 2])),
+        # a hair above / below a node's latitude (not equal to it)
+        "lat_offset": draw(sampled_from([0.0, 0.0, 1e-7, -1e-7, 3e-6, -3e-6])),
         "data": draw(sampled_from([None, "face", "face", "node", "edge"])),
         "lead": draw(st.lists(st.integers(1, 3), max_size=2)),
         "threads": draw(sampled_from([1, 2, 4, 16])),
@@ -132,7 +134,9 @@ def classify(case):
     if case.get("planted"):
         labs.append("bbox-around-node-on-antimeridian:" + case["planted"] + ":" + case["element"].split()[0])
     if case["sel"] == "const_lat" and case["lat_from_node"] is not None:
-        labs.append("lat-equals-a-node-latitude")
+        labs.append("lat-equals-a-node-latitude" if not case.get("lat_offset") else "lat-a-hair-from-a-node-latitude")
+    if case["sel"] == "const_lat" and case["lat_from_node"] is None and abs(case["lat"]) > 89.0:
+        labs.append("lat-next-to-a-pole")
     nontrivial = case["idx_mode"] != "all" and (bool(case["materialise"]) or case["data"] is not None or case["source"] == "mpas")
     return labs, nontrivial
 
@@ -307,11 +311,11 @@ def run_case(case, ctx):
     else:
         lat = case["lat"]
         if case["lat_from_node"] is not None:
-            lat = float(mesh["nodes"][case["lat_from_node"] % n_node][1])
+            lat = float(mesh["nodes"][case["lat_from_node"] % n_node][1]) + float(case.get("lat_offset", 0.0))
             if abs(lat) >= 89.999:
                 lat = case["lat"]
             else:
-                site += ":node-latitude"
+                site += ":node-latitude" + ("" if not case.get("lat_offset") else ":offset")
         # sides are decided on the latitudes themselves: a node whose latitude equals the requested one
         # (the same double) lies on the parallel, i.e. on neither side; a node within 1e-9 deg of it
         # without being equal is ambiguous
